@@ -288,6 +288,17 @@ static void run_case(int ntok, char **tok)
 				for (i = 0; i < trav_n; i++) vh_add(i ? ".%d" : "%d", trav_seq[i]);
 			}
 		}
+		else if (!strcmp(op, "find")) {
+			int p = vh_int(tok[t++]);
+			const char *nm = tok[t++];
+			int pos = vh_int(tok[t++]);
+			if (!live(p)) vh_tok("X"); else res_p(mpt_node_find(NODE(p), strcmp(nm, "-") ? nm : 0, pos));
+		}
+		else if (!strcmp(op, "next")) {
+			int x = vh_int(tok[t++]);
+			const char *nm = tok[t++];
+			if (!live(x)) vh_tok("X"); else res_p(mpt_node_next(NODE(x), strcmp(nm, "-") ? nm : 0));
+		}
 		else if (!strcmp(op, "end")) {
 			int i, left = 0;
 			for (i = 0; i < ntab; i++) {
